@@ -6,3 +6,4 @@ open BV
 #print axioms C03_every_occurrence
 #print axioms C03_version_placeholder
 #print axioms C03_shared_line_witness
+#print axioms tie_hasOverlap
